@@ -28,6 +28,7 @@ pub struct Printer<'r> {
     /// number of gaps that contained a comment / a newline (layout evidence)
     pub comments: usize,
     pub newlines_in_gaps: usize,
+    pub multi_line_strings: usize,
     pub trailing_commas: usize,
 }
 
@@ -48,6 +49,22 @@ pub fn escape_string(s: &str) -> String {
     o
 }
 
+/// like `escape_string`, but line feeds and tabs stay as they are
+pub fn escape_string_keeping_line_feeds(s: &str) -> String {
+    let mut o = String::from("\"");
+    for c in s.chars() {
+        match c {
+            '"' => o.push_str("\\\""),
+            '\\' => o.push_str("\\\\"),
+            '\r' => o.push_str("\\r"),
+            '\0' => o.push_str("\\0"),
+            c => o.push(c),
+        }
+    }
+    o.push('"');
+    o
+}
+
 impl<'r> Printer<'r> {
     pub fn house() -> Printer<'static> {
         Printer {
@@ -58,6 +75,7 @@ impl<'r> Printer<'r> {
             rng: None,
             comments: 0,
             newlines_in_gaps: 0,
+            multi_line_strings: 0,
             trailing_commas: 0,
         }
     }
@@ -70,6 +88,7 @@ impl<'r> Printer<'r> {
             rng: Some(rng),
             comments: 0,
             newlines_in_gaps: 0,
+            multi_line_strings: 0,
             trailing_commas: 0,
         }
     }
@@ -473,7 +492,16 @@ impl<'r> Printer<'r> {
                 self.glue(&t);
             }
             GExpr::Str(s) => {
-                let t = escape_string(s);
+                // random layouts write line feeds and tabs inside a string literally now and
+                // then: the literal then spans lines, and everything after it sits on a later row
+                let literal = match self.rng.as_mut() {
+                    Some(r) => (s.contains('\n') || s.contains('\t')) && r.chance(1, 2),
+                    None => false,
+                };
+                let t = if literal { escape_string_keeping_line_feeds(s) } else { escape_string(s) };
+                if literal {
+                    self.multi_line_strings += 1;
+                }
                 self.glue(&t);
             }
             GExpr::List(xs) => {
